@@ -58,6 +58,8 @@ def _segment(src: str, qual: str | None):
     else:
         c2 = [c for c in cands if not any(isinstance(d, ast.Attribute) and d.attr in ("setter", "deleter") for d in getattr(c, "decorator_list", []))]
         cands = c2 or cands
+    c3 = [c for c in cands if not any(isinstance(d, ast.Name) and d.id == "overload" for d in getattr(c, "decorator_list", []))]
+    cands = c3 or cands
     if not cands:
         return None
     c = cands[0]
